@@ -118,6 +118,7 @@ package patch
 //@   ensures reports: result == old(has(patches, origin))
 //@   ensures restored: old(has(patches, origin)) && old(patches[origin].guard) != nil && old(patches[origin].guard.applied)
 //@     | ==> window_is(origin, old(patches[origin].guard.originBytes))
+//@   ensures other_guards_kept: forall q *patch :: !(old(has(patches, origin)) && q == old(patches[origin])) ==> q.guard == old(q.guard)
 //@   ensures untouched_otherwise: !old(has(patches, origin)) || old(patches[origin].guard) == nil || !old(patches[origin].guard.applied) ==> text_unchanged()
 //@   ensures pages_rx: perm_exec_kept()
 
@@ -131,7 +132,7 @@ package patch
 //@   requires target: p != nil && addr13_ok(p.originPtr) && p.guard == nil
 //@   requires table: patches != nil
 //@   requires entry_ok: has(patches, p.originPtr) ==> patch_guard_ok(patches[p.originPtr]) && patches[p.originPtr].originPtr == p.originPtr && patches[p.originPtr] != p
-//@   requires trampoline_elsewhere: p.trampolinePtr > 0 ==> tramp_ok(p.originPtr, p.trampolinePtr)
+//@   assume trampoline_elsewhere: p.trampolinePtr > 0 ==> tramp_ok(p.originPtr, p.trampolinePtr)
 //@   assigns patches[p.originPtr], old(patches[p.originPtr]).guard, p.jumpBytes, p.originBytes, p.fixOriginPtr,
 //@     | textmem[p.originPtr : p.originPtr + 13], textmem[p.trampolinePtr : p.trampolinePtr + uintptr(bytecode.func_extent(p.trampolinePtr))],
 //@     | perm, rw_wheld[addr(memory.memoryAccessLock)], rw_rheld[addr(memory.memoryAccessLock)], mutex_held[addr(patchesLock)]
@@ -143,6 +144,8 @@ package patch
 //@     | ==> forall i int :: 0 <= i && i < 13 ==> p.originBytes[i] == old(patches[p.originPtr].guard.originBytes[i])
 //@   ensures never_diverts: forall a uintptr :: p.originPtr <= a && a < p.originPtr + 13 ==> textmem[a] == old(textmem[a]) || (old(has(patches, p.originPtr)) && old(patches[p.originPtr].guard) != nil && old(patches[p.originPtr].guard.applied))
 //@   ensures error_leaves_placeholder: result != nil ==> forall a uintptr :: a < p.originPtr || a >= p.originPtr + 13 ==> textmem[a] == old(textmem[a])
+//@   ensures other_guards_kept: forall q *patch :: !(old(has(patches, p.originPtr)) && q == old(patches[p.originPtr])) ==> q.guard == old(q.guard)
+//@   ensures no_placeholder_no_write: p.trampolinePtr == 0 ==> forall a uintptr :: a < p.originPtr || a >= p.originPtr + 13 ==> textmem[a] == old(textmem[a])
 //@   ensures trampoline_on_success: result == nil && p.trampolinePtr > 0 ==> p.fixOriginPtr == p.trampolinePtr
 //@   ensures pages_rx: perm_exec_kept()
 //@   ensures lock_released: !locked()
@@ -165,3 +168,173 @@ package patch
 //@   ensures error_writes_nothing: result1 != nil ==> text_unchanged()
 //@   ensures returns_placeholder: result1 == nil ==> result0 == trampoline
 //@   ensures pages_rx: perm_exec_kept()
+
+// ---- C13: signature check ---------------------------------------------------------------------------------
+
+//@ pure func sig_compatible(a reflect.Type, b reflect.Type) bool = rt_numin(a) == rt_numin(b) && rt_numout(a) == rt_numout(b)
+//@   | && (forall i int :: 0 <= i && i < rt_numin(a) ==> rt_size(rt_in(a, i)) == rt_size(rt_in(b, i)))
+//@   | && (forall i int :: 0 <= i && i < rt_numout(a) ==> rt_size(rt_out(a, i)) == rt_size(rt_out(b, i)))
+
+//@ func SignatureEquals
+//@   props C13
+//@   requires types: typeA != nil && typeB != nil
+//@   assigns nothing
+//@   invariant loop 1 ins: 0 <= i && i <= rt_numin(typeA) && rt_kind(typeA) == reflect.Func && rt_kind(typeB) == reflect.Func && rt_numin(typeA) == rt_numin(typeB) && rt_numout(typeA) == rt_numout(typeB)
+//@     | && (forall j int :: 0 <= j && j < i ==> rt_size(rt_in(typeA, j)) == rt_size(rt_in(typeB, j)))
+//@   decreases loop 1 rt_numin(typeA) - i
+//@   invariant loop 2 outs: 0 <= i && i <= rt_numout(typeA) && rt_kind(typeA) == reflect.Func && rt_kind(typeB) == reflect.Func && rt_numin(typeA) == rt_numin(typeB) && rt_numout(typeA) == rt_numout(typeB)
+//@     | && (forall j int :: 0 <= j && j < rt_numin(typeA) ==> rt_size(rt_in(typeA, j)) == rt_size(rt_in(typeB, j)))
+//@     | && (forall j int :: 0 <= j && j < i ==> rt_size(rt_out(typeA, j)) == rt_size(rt_out(typeB, j)))
+//@   decreases loop 2 rt_numout(typeA) - i
+//@   ensures accepts_only_compatible: result && sig_compatible(typeA, typeB)
+//@   panics_only_if mismatch: rt_kind(typeA) != reflect.Func || rt_kind(typeB) != reflect.Func || !sig_compatible(typeA, typeB)
+
+// ---- entry points of package patch ---------------------------------------------------------------------------
+
+// table_inv: every entry of the patch table is keyed by its own origin and is consistent with its guard.
+// was_patched(k)/old_entry(k): the table at function entry, for a key computed in the post-state.
+//@ pure func was_patched(k uintptr) bool = old(has(patches, k))
+//@ pure func old_entry(k uintptr) *patch = old(patches[k])
+//@ pure func table_inv() bool = patches != nil && forall k uintptr :: has(patches, k) ==> patch_guard_ok(patches[k]) && patches[k].originPtr == k
+//@ pure func not_in_table(p *patch) bool = forall k uintptr :: has(patches, k) ==> patches[k] != p
+// placeholder_ok(p): whatever origin the patch resolves to, the placeholder body (if any) lies elsewhere (assumed of callers).
+//@ pure func entry_frame(origin uintptr, tramp uintptr) bool = forall a uintptr :: textmem[a] == old(textmem[a]) || (origin <= a && a < origin + 13)
+//@   | || (tramp > 0 && tramp <= a && a < tramp + uintptr(bytecode.func_extent(tramp)))
+
+//@ func IsGenericsFunc
+//@   pure
+
+//@ func (p *patch) unsafePatchPtr
+//@   props C02 C01 C11 C13 C14
+//@   requires target: p != nil && addr13_ok(p.originPtr) && p.guard == nil && not_in_table(p)
+//@   requires table: table_inv()
+//@   requires unlocked: !locked()
+//@   requires no_stale_placeholder: p.trampoline == nil ==> p.trampolinePtr == 0
+//@   assigns p.originPtr, p.replacementPtr, p.trampolinePtr, p.jumpBytes, p.originBytes, p.fixOriginPtr, mapof(patches), anyfield(patch, guard),
+//@     | textmem, perm, rw_wheld[addr(memory.memoryAccessLock)], rw_rheld[addr(memory.memoryAccessLock)], mutex_held[addr(patchesLock)]
+//@   ensures other_entries_kept: forall k uintptr :: k != p.originPtr ==> has(patches, k) == old(has(patches, k)) && patches[k] == old(patches[k])
+//@   ensures other_guards_kept: forall q *patch :: q.guard == old(q.guard) || (was_patched(p.originPtr) && q == old_entry(p.originPtr))
+//@   ensures table_kept: table_inv()
+//@   ensures registered_gc_anchor: result == nil ==> has(patches, p.originPtr) && patches[p.originPtr] == p && p.replacementValue == old(p.replacementValue)
+//@   ensures complete: result == nil ==> patch_complete(p)
+//@   ensures captured: result == nil ==> window_is(p.originPtr, p.originBytes)
+//@   ensures no_guard_yet: p.guard == nil && p.originPtr == old(p.originPtr)
+//@   ensures only_entry_and_placeholder: entry_frame(p.originPtr, p.trampolinePtr)
+//@   ensures never_diverts: forall a uintptr :: p.originPtr <= a && a < p.originPtr + 13 ==> textmem[a] == old(textmem[a]) || was_patched(p.originPtr)
+//@   ensures error_leaves_placeholder: result != nil ==> forall a uintptr :: a < p.originPtr || a >= p.originPtr + 13 ==> textmem[a] == old(textmem[a])
+//@   ensures pages_rx: perm_exec_kept()
+//@   ensures lock_state: locked() == old(locked())
+//@   panics_only_if bad_replacement: !kind_has_pointer(rv_kind(p.replacementValue))
+//@   ensures_on_panic nothing_written: text_unchanged()
+
+//@ func (p *patch) unsafePatchValue
+//@   props C02 C01 C11 C13 C14
+//@   requires target: p != nil && p.guard == nil && not_in_table(p)
+//@   requires table: table_inv()
+//@   requires unlocked: !locked()
+//@   requires no_stale_placeholder: p.trampoline == nil ==> p.trampolinePtr == 0
+//@   assigns p.originPtr, p.replacementPtr, p.trampolinePtr, p.jumpBytes, p.originBytes, p.fixOriginPtr, mapof(patches), anyfield(patch, guard),
+//@     | textmem, perm, rw_wheld[addr(memory.memoryAccessLock)], rw_rheld[addr(memory.memoryAccessLock)], mutex_held[addr(patchesLock)]
+//@   ensures other_entries_kept: forall k uintptr :: k != p.originPtr ==> has(patches, k) == old(has(patches, k)) && patches[k] == old(patches[k])
+//@   ensures other_guards_kept: forall q *patch :: q.guard == old(q.guard) || (was_patched(p.originPtr) && q == old_entry(p.originPtr))
+//@   ensures table_kept: table_inv()
+//@   ensures rejects_non_func: rv_kind(p.originValue) != reflect.Func || rv_kind(p.replacementValue) != reflect.Func ==> result != nil && text_unchanged()
+//@   ensures registered_gc_anchor: result == nil ==> has(patches, p.originPtr) && patches[p.originPtr] == p && p.replacementValue == old(p.replacementValue)
+//@   ensures complete: result == nil ==> patch_complete(p) && addr13_ok(p.originPtr)
+//@   ensures captured: result == nil ==> window_is(p.originPtr, p.originBytes)
+//@   ensures no_guard_yet: p.guard == nil
+//@   ensures only_entry_and_placeholder: entry_frame(p.originPtr, p.trampolinePtr)
+//@   ensures never_diverts: forall a uintptr :: p.originPtr <= a && a < p.originPtr + 13 ==> textmem[a] == old(textmem[a]) || was_patched(p.originPtr)
+//@   ensures error_leaves_placeholder: result != nil ==> forall a uintptr :: a < p.originPtr || a >= p.originPtr + 13 ==> textmem[a] == old(textmem[a])
+//@   ensures pages_rx: perm_exec_kept()
+//@   ensures lock_state: !locked()
+
+//@ func (p *patch) patchValue
+//@   props C02 C01 C11 C13 C14
+//@   requires target: p != nil && p.guard == nil && not_in_table(p)
+//@   requires table: table_inv()
+//@   requires unlocked: !locked()
+//@   requires no_stale_placeholder: p.trampoline == nil ==> p.trampolinePtr == 0
+//@   assigns p.originPtr, p.replacementPtr, p.trampolinePtr, p.jumpBytes, p.originBytes, p.fixOriginPtr, mapof(patches), anyfield(patch, guard),
+//@     | textmem, perm, rw_wheld[addr(memory.memoryAccessLock)], rw_rheld[addr(memory.memoryAccessLock)], mutex_held[addr(patchesLock)]
+//@   ensures other_entries_kept: forall k uintptr :: k != p.originPtr ==> has(patches, k) == old(has(patches, k)) && patches[k] == old(patches[k])
+//@   ensures other_guards_kept: forall q *patch :: q.guard == old(q.guard) || (was_patched(p.originPtr) && q == old_entry(p.originPtr))
+//@   ensures table_kept: table_inv()
+//@   ensures signature_checked: result == nil ==> sig_compatible(rv_type(p.originValue), rv_type(p.replacementValue))
+//@   ensures registered_gc_anchor: result == nil ==> has(patches, p.originPtr) && patches[p.originPtr] == p && p.replacementValue == old(p.replacementValue)
+//@   ensures complete: result == nil ==> patch_complete(p) && addr13_ok(p.originPtr)
+//@   ensures captured: result == nil ==> window_is(p.originPtr, p.originBytes)
+//@   ensures no_guard_yet: p.guard == nil
+//@   ensures only_entry_and_placeholder: entry_frame(p.originPtr, p.trampolinePtr)
+//@   ensures never_diverts: forall a uintptr :: p.originPtr <= a && a < p.originPtr + 13 ==> textmem[a] == old(textmem[a]) || was_patched(p.originPtr)
+//@   ensures error_leaves_placeholder: result != nil ==> forall a uintptr :: a < p.originPtr || a >= p.originPtr + 13 ==> textmem[a] == old(textmem[a])
+//@   ensures pages_rx: perm_exec_kept()
+//@   ensures lock_state: !locked()
+//@   panics_only_if bad_signature: !rv_valid(p.originValue) || !rv_valid(p.replacementValue) || rv_kind(p.originValue) != reflect.Func || rv_kind(p.replacementValue) != reflect.Func
+//@     | || !sig_compatible(rv_type(p.originValue), rv_type(p.replacementValue))
+//@   ensures_on_panic nothing_written: text_unchanged() && table_inv() && !locked()
+
+//@ func (p *patch) patch
+//@   props C02 C01 C11 C13 C14
+//@   requires target: p != nil && p.guard == nil && not_in_table(p)
+//@   requires table: table_inv()
+//@   requires unlocked: !locked()
+//@   requires no_stale_placeholder: p.trampoline == nil ==> p.trampolinePtr == 0
+//@   assigns p.originValue, p.replacementValue, p.originPtr, p.replacementPtr, p.trampolinePtr, p.jumpBytes, p.originBytes, p.fixOriginPtr, mapof(patches), anyfield(patch, guard),
+//@     | textmem, perm, rw_wheld[addr(memory.memoryAccessLock)], rw_rheld[addr(memory.memoryAccessLock)], mutex_held[addr(patchesLock)]
+//@   ensures other_entries_kept: forall k uintptr :: k != p.originPtr ==> has(patches, k) == old(has(patches, k)) && patches[k] == old(patches[k])
+//@   ensures other_guards_kept: forall q *patch :: q.guard == old(q.guard) || (was_patched(p.originPtr) && q == old_entry(p.originPtr))
+//@   ensures table_kept: table_inv()
+//@   ensures values: p.originValue == value_of(p.origin) && p.replacementValue == value_of(p.replacement)
+//@   ensures registered_gc_anchor: result == nil ==> has(patches, p.originPtr) && patches[p.originPtr] == p
+//@   ensures complete: result == nil ==> patch_complete(p) && addr13_ok(p.originPtr)
+//@   ensures captured: result == nil ==> window_is(p.originPtr, p.originBytes)
+//@   ensures no_guard_yet: p.guard == nil
+//@   ensures only_entry_and_placeholder: entry_frame(p.originPtr, p.trampolinePtr)
+//@   ensures never_diverts: forall a uintptr :: p.originPtr <= a && a < p.originPtr + 13 ==> textmem[a] == old(textmem[a]) || was_patched(p.originPtr)
+//@   ensures error_leaves_placeholder: result != nil ==> forall a uintptr :: a < p.originPtr || a >= p.originPtr + 13 ==> textmem[a] == old(textmem[a])
+//@   ensures pages_rx: perm_exec_kept()
+//@   ensures lock_state: !locked()
+//@   panics_only_if rejected: p.origin == nil || p.replacement == nil || rv_kind(value_of(p.origin)) != reflect.Func || rv_kind(value_of(p.replacement)) != reflect.Func
+//@     | || !sig_compatible(rv_type(value_of(p.origin)), rv_type(value_of(p.replacement)))
+//@   ensures_on_panic nothing_written: text_unchanged() && table_inv() && !locked()
+
+//@ func Trampoline
+//@   props C02 C01 C11 C13 C14
+//@   requires table: table_inv()
+//@   requires table_alive: forall k uintptr :: has(patches, k) ==> alive(patches[k])
+//@   requires unlocked: !locked()
+//@   assigns mapof(patches), anyfield(patch, guard), textmem, perm, rw_wheld[addr(memory.memoryAccessLock)], rw_rheld[addr(memory.memoryAccessLock)], mutex_held[addr(patchesLock)]
+//@   ensures table_kept: table_inv()
+//@   ensures error_no_guard: result1 != nil ==> result0 == nil
+//@   ensures guard_ready: result1 == nil ==> result0 != nil && guard_wf(result0) && !result0.applied && has(patches, result0.origin) && patches[result0.origin].guard == result0
+//@   ensures jump_through_replacement_funcvalue: result1 == nil ==> x86_is_movabs_rdx_jmp(result0.jumpBytes, 1) && x86_movabs_rdx_imm(result0.jumpBytes, 1) == bytecode.funcvalue_word(value_of(replacement))
+//@   ensures gc_anchor: result1 == nil ==> patches[result0.origin].replacementValue == value_of(replacement)
+//@   ensures captured_text: result1 == nil ==> window_is(result0.origin, result0.originBytes)
+//@   ensures not_diverted_yet: result1 == nil ==> forall a uintptr :: result0.origin <= a && a < result0.origin + 13 ==> textmem[a] == old(textmem[a]) || was_patched(result0.origin)
+//@   ensures error_leaves_unmocked_targets_alone: result1 != nil ==> forall a uintptr :: textmem[a] == old(textmem[a]) || exists k uintptr :: was_patched(k) && k <= a && a < k + 13
+//@   ensures pages_rx: perm_exec_kept()
+//@   ensures lock_state: !locked()
+//@   panics_only_if rejected: origin == nil || replacement == nil || rv_kind(value_of(origin)) != reflect.Func || rv_kind(value_of(replacement)) != reflect.Func
+//@     | || !sig_compatible(rv_type(value_of(origin)), rv_type(value_of(replacement)))
+//@   ensures_on_panic nothing_written: text_unchanged() && table_inv() && !locked()
+
+//@ func Patch
+//@   props C02 C01 C11 C13 C14
+//@   requires table: table_inv()
+//@   requires table_alive: forall k uintptr :: has(patches, k) ==> alive(patches[k])
+//@   requires unlocked: !locked()
+//@   assigns mapof(patches), anyfield(patch, guard), textmem, perm, rw_wheld[addr(memory.memoryAccessLock)], rw_rheld[addr(memory.memoryAccessLock)], mutex_held[addr(patchesLock)]
+//@   ensures table_kept: table_inv()
+//@   ensures error_no_guard: result1 != nil ==> result0 == nil
+//@   ensures guard_ready: result1 == nil ==> result0 != nil && guard_wf(result0) && !result0.applied && has(patches, result0.origin) && patches[result0.origin].guard == result0
+//@   ensures jump_through_replacement_funcvalue: result1 == nil ==> x86_is_movabs_rdx_jmp(result0.jumpBytes, 1) && x86_movabs_rdx_imm(result0.jumpBytes, 1) == bytecode.funcvalue_word(value_of(replacement))
+//@   ensures gc_anchor: result1 == nil ==> patches[result0.origin].replacementValue == value_of(replacement)
+//@   ensures captured_text: result1 == nil ==> window_is(result0.origin, result0.originBytes)
+//@   ensures not_diverted_yet: result1 == nil ==> forall a uintptr :: result0.origin <= a && a < result0.origin + 13 ==> textmem[a] == old(textmem[a]) || was_patched(result0.origin)
+//@   ensures error_leaves_unmocked_targets_alone: result1 != nil ==> forall a uintptr :: textmem[a] == old(textmem[a]) || exists k uintptr :: was_patched(k) && k <= a && a < k + 13
+//@   ensures pages_rx: perm_exec_kept()
+//@   ensures lock_state: !locked()
+//@   panics_only_if rejected: origin == nil || replacement == nil || rv_kind(value_of(origin)) != reflect.Func || rv_kind(value_of(replacement)) != reflect.Func
+//@     | || !sig_compatible(rv_type(value_of(origin)), rv_type(value_of(replacement)))
+//@   ensures_on_panic nothing_written: text_unchanged() && table_inv() && !locked()
